@@ -9,7 +9,7 @@ CHUNK = 100
 RULE = ('all 23 message classes x {SOP class UID of every length 1..64, SOP instance UID of every length 1..64} x '
         'data set absent/present; x numeric fields all at each of 7 boundary values; x every subset of command fields '
         'left unset; x every sequence of <=2 (3 thorough) field/data-set changes between repeated sends of the same '
-        'object through the real Association.send; every send is parsed by the reference reader. '
+        'object through the real Association.send, also for objects built around an existing command set (constructor argument); every send is parsed by the reference reader. '
         'distinct/non-trivial = distinct (class, command-set byte length, #sends, data-set flag)')
 ASSUMPTIONS = ['Association is built over a stub provider that records the generator handed to dul.send',
                'out of alphabet: empty file objects as data set']
@@ -57,6 +57,14 @@ def cases(tier, seed):
                 for ds in (None, b'INITIAL-DATASET'):
                     for maxlen in ((16384, 40) if d < 3 else (16384,)):
                         yield {'cls': name, 'ds': ds, 'ops': list(seq), 'maxlen': maxlen}
+    # a message object built around an existing command set (optional constructor argument: relayed / copied command sets),
+    # whose data-set flag may say either, then given its data set explicitly before each send
+    dsops = ['dataset_none', 'dataset_empty', 'dataset_longer', 'dataset_shorter']
+    for name in names:
+        for cs_ds in (None, b'PREVIOUS'):
+            for d in (1, 2):
+                for seq in itertools.product(dsops, repeat=d):
+                    yield {'cls': name, 'ds': cs_ds, 'ops': list(seq), 'from_cs': True}
 
 
 def run_case(case):
@@ -78,9 +86,12 @@ def run_case(case):
     for kwd in case.get('extra', ()):
         setattr(msg.command_set, kwd, {'ErrorComment': 'odd', 'OffendingElement': [0x00100010], 'ErrorID': 7}[kwd])
     viol = []
+    if case.get('from_cs'):
+        import copy
+        msg = type(msg)(copy.deepcopy(msg.command_set))
     with stubs.patched_dul():
         assoc = asceprovider.Association(stubs.FakeAE(), None, case.get('maxlen', 16384))
-        sends = [None] + list(case['ops'])
+        sends = ([] if case.get('from_cs') else [None]) + list(case['ops'])
         key = None
         for n, op in enumerate(sends):
             if op == 'status' and hasattr(type(msg), 'status') and 'Status' in msg.command_set:
